@@ -82,8 +82,11 @@ func lessEq(a, b row) bool {
 			verifrt.Or(lt(a.ex, b.ex), verifrt.And(eq(a.ex, b.ex), a.locs <= b.locs))))))
 }
 
+// maxFileSize is the size limit of the scans started by scan (0 = none).
+var maxFileSize int
+
 func scan(roots []*symfs.Node, exs []filesystem.Extractor) *scalibr.ScanResult {
-	cfg := &scalibr.ScanConfig{FilesystemExtractors: exs, Capabilities: &plugin.Capabilities{}}
+	cfg := &scalibr.ScanConfig{FilesystemExtractors: exs, Capabilities: &plugin.Capabilities{}, MaxFileSize: maxFileSize}
 	for _, r := range roots {
 		cfg.ScanRoots = append(cfg.ScanRoots, &scalibrfs.ScanRoot{FS: &symfs.FS{Root: r}})
 	}
@@ -154,6 +157,9 @@ func VerifOrder() {
 func VerifRoots() {
 	nroots := 2 + verifrt.Choice("extra-root", 2)
 	overlap := verifrt.Choice("overlap", 2) == 1
+	// with a size limit, a file is judged by its own root's size (per-file state must not leak
+	// from one root into the next)
+	sizeLimit := verifrt.Choice("size-limit", 2) == 1
 	if nroots > 1 {
 		verifrt.Tag("C08-multi-root")
 	}
@@ -164,8 +170,16 @@ func VerifRoots() {
 		if overlap {
 			f = "same.pkg" // the same relative path in every root
 		}
-		roots = append(roots, symfs.Dir(".", symfs.File(f, "x")))
+		file := symfs.File(f, "x")
+		if sizeLimit && verifrt.Choice("oversize", 2) == 1 {
+			file.Size = 10 // above the limit of 5: this root's file is skipped, whatever the other roots hold
+		}
+		roots = append(roots, symfs.Dir(".", file))
 		c[f] = []pkgSpec{{name: fmt.Sprintf("pkg-%s", f), version: "1"}}
+	}
+	maxFileSize = 0
+	if sizeLimit {
+		maxFileSize = 5
 	}
 	mk := func() []filesystem.Extractor { return []filesystem.Extractor{extractorFor("x", c)} }
 	want := 0
@@ -175,6 +189,7 @@ func VerifRoots() {
 		verifrt.Assert(len(one.PluginStatus) == 1, "single root: one status per plugin")
 	}
 	all := scan(roots, mk())
+	maxFileSize = 0
 	verifrt.Reach("multi-root")
 	verifrt.ObserveInt("packages", len(all.Inventory.Packages))
 	verifrt.Assert(all.Status.Status == plugin.ScanStatusSucceeded, "multi-root scan succeeds")
